@@ -140,13 +140,36 @@ def shared_buffers(a, b, skip=()):
     return hits
 
 
-def state_diff(a, b, rtol=0.0, atol=0.0, skip=()):
+def _private_prefix(path):
+    """Path up to and including its first private attribute component, or None."""
+    import re
+    m = re.search(r"\._[A-Za-z0-9][A-Za-z0-9_]*", path)
+    if not m or path[m.start():m.start() + 3] == ".__":
+        return None
+    return path[:m.end()]
+
+
+def _absent_private(path, other_paths):
+    """True if `path` lies under a private attribute that the other object does not have at all (a memo slot that
+    only one of the two instances has filled so far).  An attribute present on both sides, even as None, is state."""
+    pre = _private_prefix(path)
+    if pre is None:
+        return False
+    return not any(q == pre or q.startswith(pre + ".") or q.startswith(pre + "[") or q.startswith(pre + "<") for q in other_paths)
+
+
+def state_diff(a, b, rtol=0.0, atol=0.0, skip=(), memo_tolerant=False):
     """Walk two graphs in lock-step; return None if equal (within tolerance for float arrays),
-    else a description of the first difference."""
+    else a description of the first difference.  memo_tolerant: a private attribute that exists on one side only
+    (not even as None on the other) is ignored - see _absent_private."""
     la = list(walk(a, skip=skip))
     lb = list(walk(b, skip=skip))
     ma = dict(la)
     mb = dict(lb)
+    if memo_tolerant:
+        la = [(p, x) for p, x in la if not _absent_private(p, mb)]
+        lb = [(p, y) for p, y in lb if not _absent_private(p, ma)]
+        ma, mb = dict(la), dict(lb)
     for p, x in la:
         if p not in mb:
             return "%s missing in second" % p
@@ -200,3 +223,58 @@ def parameter_mutation(before, after):
         if p not in mb and not private_leaf(p):
             return (p, "<missing>", t)
     return None
+
+
+# ----------------------------------------------------------------------------------------------
+# public views: what a user can read back from a shape or an image, independent of private layout
+
+
+def _lm_view(obj):
+    try:
+        if not getattr(obj, "has_landmarks", False):
+            return None
+        lms = obj.landmarks
+        return [(g, public_view(lms[g])) for g in lms.keys()]
+    except Exception as e:  # reading landmarks must not fail on a well-formed object
+        return ("<raises %s>" % type(e).__name__,)
+
+
+def public_view(obj):
+    """Plain nested structure of everything the public API of a shape / image exposes as data: class, points or
+    pixels, connectivity, per-vertex attributes, texture, labels (name -> member indices, in order), mask, landmark
+    groups (in order) and path.  Private attributes (memo slots included) never enter the view, so two objects with
+    equal views are indistinguishable to a caller.  Other objects are returned as they are."""
+    from menpo.shape import PointCloud
+    from menpo.image import Image
+
+    if isinstance(obj, PointCloud):
+        v = {"<type>": type(obj).__name__, "points": obj.points}
+        if hasattr(obj, "adjacency_matrix"):
+            v["adjacency"] = obj.adjacency_matrix
+        if hasattr(obj, "trilist"):
+            v["trilist"] = obj.trilist
+        if hasattr(obj, "colours"):
+            v["colours"] = obj.colours
+        if hasattr(obj, "tcoords"):
+            v["tcoords"] = public_view(obj.tcoords)
+        if hasattr(obj, "texture"):
+            v["texture"] = public_view(obj.texture)
+        if hasattr(obj, "labels") and hasattr(obj, "tojson"):
+            v["labels"] = [(d["label"], tuple(d["mask"])) for d in obj.tojson()["labels"]]
+        if hasattr(obj, "root_vertex"):
+            v["root"] = obj.root_vertex
+        v["landmarks"] = _lm_view(obj)
+        return v
+    if isinstance(obj, Image):
+        v = {"<type>": type(obj).__name__, "pixels": obj.pixels}
+        if hasattr(obj, "mask") and not isinstance(obj.mask, np.ndarray):
+            v["mask"] = obj.mask.pixels
+        v["landmarks"] = _lm_view(obj)
+        v["path"] = getattr(obj, "path", None)
+        return v
+    return obj
+
+
+def public_diff(a, b, rtol=0.0, atol=0.0):
+    """state_diff over the public views of two shapes / images."""
+    return state_diff(public_view(a), public_view(b), rtol=rtol, atol=atol, memo_tolerant=True)
